@@ -188,9 +188,9 @@ func runC17(o *cli.Opts, run *evid.Run) {
 				sweep = append(sweep, db{d, b})
 			}
 		}
-		sweep = append(sweep, db{16, 8}, db{20, 100}, db{31, 1}, db{10, 8}, db{3, 2}, db{30, 4}, db{10, 8}, db{2, 1}, db{16, 8})
+		sweep = append(sweep, db{16, 8}, db{20, 100}, db{2, 16}, db{1, 60}, db{4, 15}, db{3, 250}, db{32, 33}, db{31, 1}, db{10, 8}, db{3, 2}, db{30, 4}, db{10, 8}, db{2, 1}, db{16, 8})
 	} else {
-		sweep = []db{{1, 1}, {3, 2}, {10, 8}, {2, 1}, {10, 8}, {5, 3}, {3, 2}, {8, 4}, {31, 1}, {1, 1}, {30, 4}}
+		sweep = []db{{1, 1}, {3, 2}, {10, 8}, {2, 1}, {10, 8}, {5, 3}, {3, 2}, {8, 4}, {31, 1}, {1, 1}, {30, 4}, {2, 16}, {1, 60}, {4, 15}, {2, 16}}
 	}
 	seen := map[db]string{}
 	for i, s := range sweep {
